@@ -18,6 +18,7 @@ type qprog struct {
 	Observers  int     `json:"observers"`
 	RemoveAll  bool    `json:"removeAll"` // one RemoveAll at any time
 	Take       int     `json:"take"`      // consumers stop after this many values when there is no closer (0: until closed)
+	Rounds     int     `json:"rounds"`    // 2: after everything has finished, RemoveAll (nothing in flight) and run the program again on the same queue
 }
 
 func (p qprog) steps() int {
@@ -25,7 +26,11 @@ func (p qprog) steps() int {
 	for _, vs := range p.Producers {
 		n += 2 * len(vs)
 	}
-	return n*2 + 2*p.Consumers + 4 + 2*p.Observers
+	n = n*2 + 2*p.Consumers + 4 + 2*p.Observers
+	if p.Rounds > 1 {
+		n = n*p.Rounds + 2
+	}
+	return n
 }
 
 type qrun struct {
@@ -56,55 +61,88 @@ func runQueueProgram(p qprog, rng *Rng, choices []int) qrun {
 	s := newSched(rng, choices)
 	defer s.stop()
 	q := col.Queue[int](notation).MakeWithCapacity(uint(p.Cap))
-	producersDone := 0
 	var res qrun
-	res.got = make([][]int, p.Consumers)
+	rounds := p.Rounds
+	if rounds < 1 {
+		rounds = 1
+	}
+	res.got = make([][]int, p.Consumers*rounds)
 	call := func(t int, pc string, v int) { s.record(J{"call": pc, "t": t, "v": v}) }
-	for _, vs := range p.Producers {
-		vs := vs
-		s.spawn(func(t int) {
-			for _, v := range vs {
-				call(t, "addLock", v)
-				if pc := panicClass(func() { q.AddValue(v) }); pc != "" {
+	finished := make([]int, rounds+1)
+	spawned := make([]int, rounds+1)
+	gateOpen := make([]bool, rounds+1)
+	gateOpen[0] = true
+	for round := 0; round < rounds; round++ {
+		round := round
+		producersDone := 0
+		gate := func() bool { return gateOpen[round] }
+		spawn := func(f func(t int)) {
+			spawned[round]++
+			s.spawn(func(t int) {
+				defer func() { finished[round]++ }()
+				if round > 0 {
+					s.await(gate)
+				}
+				f(t)
+			})
+		}
+		for _, vs := range p.Producers {
+			vs := vs
+			spawn(func(t int) {
+				for _, v0 := range vs {
+					v := v0 + 100*round
+					call(t, "addLock", v)
+					if pc := panicClass(func() { q.AddValue(v) }); pc != "" {
+						s.record(J{"panic": pc, "t": t})
+					} else {
+						s.record(J{"ret": "AddValue", "t": t})
+					}
+				}
+				producersDone++
+			})
+		}
+		for c := 0; c < p.Consumers; c++ {
+			c := c + round*p.Consumers
+			spawn(func(t int) {
+				for n := 0; p.Take == 0 || n < p.Take; n++ {
+					call(t, "remRecv", 0)
+					var v int
+					var ok bool
+					if pc := panicClass(func() { v, ok = q.RemoveHead() }); pc != "" {
+						s.record(J{"panic": pc, "t": t})
+						return
+					}
+					s.record(J{"ret": "RemoveHead", "t": t, "v": v, "ok": ok})
+					if !ok {
+						return
+					}
+					res.got[c] = append(res.got[c], v)
+				}
+			})
+		}
+		if p.Closer || p.CloseEarly {
+			spawn(func(t int) {
+				if p.Closer {
+					s.await(func() bool { return producersDone == len(p.Producers) })
+				}
+				call(t, "closeLock", 0)
+				if pc := panicClass(func() { q.CloseQueue() }); pc != "" {
 					s.record(J{"panic": pc, "t": t})
 				} else {
-					s.record(J{"ret": "AddValue", "t": t})
+					s.record(J{"ret": "CloseQueue", "t": t})
 				}
-			}
-			producersDone++
-		})
-	}
-	for c := 0; c < p.Consumers; c++ {
-		c := c
-		s.spawn(func(t int) {
-			for n := 0; p.Take == 0 || n < p.Take; n++ {
-				call(t, "remRecv", 0)
-				var v int
-				var ok bool
-				if pc := panicClass(func() { v, ok = q.RemoveHead() }); pc != "" {
-					s.record(J{"panic": pc, "t": t})
-					return
-				}
-				s.record(J{"ret": "RemoveHead", "t": t, "v": v, "ok": ok})
-				if !ok {
-					return
-				}
-				res.got[c] = append(res.got[c], v)
-			}
-		})
-	}
-	if p.Closer || p.CloseEarly {
-		s.spawn(func(t int) {
-			if p.Closer {
-				s.await(func() bool { return producersDone == len(p.Producers) })
-			}
-			call(t, "closeLock", 0)
-			if pc := panicClass(func() { q.CloseQueue() }); pc != "" {
-				s.record(J{"panic": pc, "t": t})
-			} else {
-				s.record(J{"ret": "CloseQueue", "t": t})
-			}
-		})
+			})
+		}
+		if round+1 < rounds {
+			// the janitor: once every call of this round has returned, reset the queue for reuse
+			s.spawn(func(t int) {
+				s.await(func() bool { return finished[round] == spawned[round] })
+				call(t, "removeAllLock", 0)
+				q.RemoveAll()
+				s.record(J{"ret": "RemoveAll", "t": t})
+				gateOpen[round+1] = true
+			})
+		}
 	}
 	for o := 0; o < p.Observers; o++ {
 		o := o
@@ -141,8 +179,12 @@ func runQueueProgram(p qprog, rng *Rng, choices []int) qrun {
 	s.mu.Lock()
 	trace := append([]J{}, s.trace...)
 	s.mu.Unlock()
-	for _, vs := range p.Producers {
-		res.added = append(res.added, vs...)
+	for round := 0; round < rounds; round++ {
+		for _, vs := range p.Producers {
+			for _, v := range vs {
+				res.added = append(res.added, v+100*round)
+			}
+		}
 	}
 	res.evs = toModelEvents(trace)
 	return res
@@ -258,6 +300,10 @@ func smallPrograms(withRemoveAll bool) []qprog {
 					}
 					if withRemoveAll && np*nv <= 2 && nc == 1 && cap <= 2 {
 						ps = append(ps, qprog{Cap: cap, Producers: prods, Consumers: nc, Closer: true, RemoveAll: true})
+					}
+					if np*nv <= 2 && nc <= 2 {
+						// reuse: close, drain, RemoveAll with nothing in flight, then the same program again
+						ps = append(ps, qprog{Cap: cap, Producers: prods, Consumers: nc, Closer: true, Rounds: 2})
 					}
 				}
 			}
